@@ -14,6 +14,9 @@
   C11.bounded-write  writes into fixed-size arrays indexed by a run-time value are dominated, in the
                      NDEBUG configuration the library ships in, by a comparison with the extent (frozen
                      table: g_taskStack, staged, topush; tlBuffers is C41's).
+  C11.swap-remove   every swap-remove loop (`v[i] = v[n-1]; --n`) keeps i on the removal path, so the
+                    moved-in element is examined too (Subgraph::removePredecessorDependencies: a
+                    skipped element is a dangling Node* to a node destroyed right afterwards).
 """
 import re
 from lib import extract, typestate
@@ -215,3 +218,51 @@ def run(R):
                                 det += "; guarded by %s %s %s" % (ivar.get("name"), c[0], bv)
                 R.ob("C11.bounded-write", fn, ev, ok, det if ok else det + "; no dominating comparison with the extent in the shipped (NDEBUG) configuration", sitekey="write:" + name, why="a write past a fixed-size array corrupts adjacent (thread-local) storage")
     R.need("C11.bounded-write", n, 3, "writes into the tabled fixed-size arrays")
+
+    # ---- swap-remove loops re-examine the element they moved in ----------------------------------------------
+    # `v[i] = v[n - 1]; --n;` removes element i by overwriting it with the last one; the element now at
+    # i has not been looked at. Advancing i on that path skips it: in Subgraph::clear() a skipped
+    # element is an edge to a node that is about to be destroyed -- a dangling Node* that the next
+    # executor run dereferences.
+    from lib.rules import natural_loops
+    ns = 0
+    for fn in F.fns:
+        if not fn.qname.startswith("dispenso::"):
+            continue
+        for p, e in fn.events():
+            if not (e.get("k") == "bin" and e.get("op") == "="):
+                continue
+            def elem(x):
+                x = strip_casts(x)
+                if isinstance(x, dict) and x.get("k") == "index":
+                    return expr_str(x.get("base")), strip_casts(x.get("idx"))
+                if isinstance(x, dict) and x.get("k") == "call" and (x.get("opcall") == "[]" or x.get("name") == "operator[]") and x.get("args"):
+                    return expr_str(x.get("obj")), strip_casts(x["args"][0])
+                return None
+            L, Rr = elem(e.get("l")), elem(e.get("r"))
+            if not L or not Rr or L[0] != Rr[0]:
+                continue
+            iv, last = L[1], Rr[1]
+            if not (isinstance(iv, dict) and iv.get("k") == "var" and isinstance(last, dict) and last.get("k") == "bin" and last.get("op") == "-" and const_val(last.get("r")) == 1
+                    and isinstance(strip_casts(last.get("l")), dict) and strip_casts(last.get("l")).get("k") == "var"):
+                continue
+            nv = strip_casts(last.get("l"))["vid"]
+            for h, body, tails in natural_loops(fn):
+                if p.b not in body:
+                    continue
+                c = comparison_of((fn.term(h) or {}).get("cond"), True, lambda x: isinstance(strip_casts(x), dict) and strip_casts(x).get("k") == "var" and strip_casts(x).get("vid") == iv.get("vid"))
+                if not (c and c[0] in ("<", "!=") and isinstance(strip_casts(c[1]), dict) and strip_casts(c[1]).get("vid") == nv):
+                    continue
+                ns += 1
+                reach = fn.reachable_blocks(start=p.b, removed_blocks={h} if h != p.b else set())
+                bad = None
+                for q, qe in fn.events():
+                    is_inc = (qe.get("k") == "un" and qe.get("op") == "++" and isinstance(strip_casts(qe.get("e")), dict) and strip_casts(qe.get("e")).get("vid") == iv.get("vid")) or \
+                             (qe.get("k") == "bin" and qe.get("op") == "+=" and isinstance(strip_casts(qe.get("l")), dict) and strip_casts(qe.get("l")).get("vid") == iv.get("vid"))
+                    if is_inc and q.b in body and ((q.b == p.b and q.i > p.i) or (q.b != p.b and q.b in reach)):
+                        bad = qe
+                R.ob("C11.swap-remove", fn, e, bad is None, "after %s[%s] = %s[%s - 1] the index is not advanced: the moved-in element is examined next" % (L[0], iv.get("name"), L[0], strip_casts(last.get("l")).get("name")) if bad is None else
+                     "after removing element %s by swapping in the last one, %s is advanced: the moved-in element is never examined (a stale entry survives the filter)" % (iv.get("name"), iv.get("name")),
+                     sitekey="swap-remove:" + L[0].split(".")[-1].split(">")[-1], why="a filter that skips elements leaves pointers to objects that are destroyed right after it")
+                break
+    R.need("C11.swap-remove", ns, 1, "swap-remove loops (Subgraph::removePredecessorDependencies)")
